@@ -161,4 +161,33 @@ instance (L : Mat3) : Decidable L.scanReduced := by unfold Mat3.scanReduced; inf
 def bondGuardsReduced (pos : List Vec3) (L : Mat3) : Bool :=
   decide L.scanReduced && pos.all (fun p => decide (L.inside p))
 
+/-! ### the width guard with a margin: atoms on the faces of the cell, or slightly outside it -/
+
+/-- fractional coordinates in the CLOSED interval `[-δ, 1 + δ]` (δ = 0: inside the cell or on one of its faces) -/
+def Mat3.insideMargin (L : Mat3) (δ : Rat) (p : Vec3) : Prop :=
+  let f := L.frac p
+  (-δ ≤ f.x ∧ f.x ≤ 1 + δ) ∧ (-δ ≤ f.y ∧ f.y ≤ 1 + δ) ∧ (-δ ≤ f.z ∧ f.z ≤ 1 + δ)
+
+instance (L : Mat3) (δ : Rat) (p : Vec3) : Decidable (L.insideMargin δ p) := by
+  unfold Mat3.insideMargin; infer_instance
+
+/-- every perpendicular width, shrunk by the factor `s`, is still at least `c`: `c ≤ s·width_k`, squared and
+    division-free (`s = 1 - 2δ` pays for atoms up to `δ` cell lengths outside the cell) -/
+def Mat3.widthsGeScaled (L : Mat3) (c s : Rat) : Prop :=
+  c * c * Vec3.normSq (Vec3.cross L.b L.c) ≤ s * s * (L.det * L.det)
+  ∧ c * c * Vec3.normSq (Vec3.cross L.c L.a) ≤ s * s * (L.det * L.det)
+  ∧ c * c * Vec3.normSq (Vec3.cross L.a L.b) ≤ s * s * (L.det * L.det)
+
+instance (L : Mat3) (c s : Rat) : Decidable (L.widthsGeScaled c s) := by unfold Mat3.widthsGeScaled; infer_instance
+
+/-- the guards of `bonds_eq_minimage_margin` as one executable `Bool`: `0 ≤ δ < 1/2`, non-degenerate cell, every atom
+    within `δ` (in fractional coordinates) of the closed cell, every perpendicular width times `1 - 2δ` at least every
+    cutoff in use.  `δ = 0` is `bondGuards` with the faces of the cell included. -/
+def bondGuardsMargin (elems : List String) (pos : List Vec3) (L : Mat3) (δ : Rat) : Bool :=
+  decide (0 ≤ δ) && decide (2 * δ < 1) && decide (L.det ≠ 0) && pos.all (fun p => decide (L.insideMargin δ p))
+    && elems.all (fun e1 => elems.all (fun e2 =>
+        match maxBondLength e1 e2 with
+        | some c => decide (L.widthsGeScaled c (1 - 2 * δ))
+        | none => true))
+
 end Mofun
